@@ -33,6 +33,8 @@ pub struct Policy {
     /// the isolated node is one the correct nodes NEED for a quorum: Byzantine validators vote like honest ones meanwhile and
     /// poison it with old certificates (C06)
     pub poisoned_laggard: bool,
+    /// every Byzantine key additionally runs two *real* replicas (twins) in different partitions
+    pub twins: bool,
     pub p_crash: f64,
     pub partition_period: usize,
     pub hidden_commit: bool,
@@ -63,6 +65,7 @@ impl Policy {
             p_forged_sync: 0.0,
             laggard: false,
             poisoned_laggard: false,
+            twins: false,
             p_crash: 0.0,
             partition_period: 0,
             hidden_commit: false,
@@ -133,13 +136,15 @@ pub struct Director {
     down: Vec<bool>,
     /// (node, step at which its isolation ends)
     laggard: Option<(usize, usize)>,
+    /// (committee index of a twin key, kind, view) -> distinct contents signed by the twins of that key
+    twin_said: BTreeMap<(usize, u8, u64), HashSet<u64>>,
 }
 
 impl Director {
     pub async fn new(c: Committee, pol: Policy, rng: StdRng) -> Self {
-        let w = World::new(c).await;
+        let w = World::new(c, pol.twins).await;
         let c = w.committee.clone();
-        let n = c.n();
+        let n = w.nodes.len();
         Director {
             mon: Monitors::new(c.clone()),
             w,
@@ -156,6 +161,7 @@ impl Director {
             hidden_loss_pct: 0,
             steer: None,
             laggard: None,
+            twin_said: BTreeMap::new(),
             res: CaseResult::default(),
             crashed_once: false,
             down: vec![false; n],
@@ -171,13 +177,31 @@ impl Director {
         let evs = self.w.log.since(self.log_cursor);
         self.log_cursor += evs.len();
         let correct = self.w.correct();
+        let twins = self.w.twins();
         for e in evs {
             match e {
                 Ev::Out { node, msg, .. } => {
                     self.know.learn(&msg);
                     let id = self.net.msgs.len();
                     self.net.msgs.push(msg);
-                    for d in &correct {
+                    if node >= self.c.n() {
+                        self.res.counters.entry("messages_emitted_by_twin_replicas".into()).and_modify(|x| *x += 1).or_insert(1);
+                        let m = &self.net.msgs[id];
+                        let ConsensusMsg::V2(cm) = &m.msg;
+                        let fp = match cm {
+                            ChonkyMsg::LeaderProposal(p) => Some((0u8, p.view().number.0, vcommon::hash_bytes(&p.proposal_payload.as_ref().map(|x| x.0.clone()).unwrap_or_default()))),
+                            ChonkyMsg::ReplicaCommit(v) => Some((1u8, v.view.number.0, vcommon::hash_of(&v.proposal.payload))),
+                            _ => None,
+                        };
+                        if let Some((k, v, h)) = fp {
+                            let e = self.twin_said.entry((self.w.twin_of[node - self.c.n()], k, v)).or_default();
+                            e.insert(h);
+                            if e.len() == 2 {
+                                self.res.counters.entry(if k == 0 { "views_with_two_different_proposals_by_twins_of_one_key".into() } else { "views_with_two_different_commit_votes_by_twins_of_one_key".to_string() }).and_modify(|x| *x += 1).or_insert(1);
+                            }
+                        }
+                    }
+                    for d in correct.iter().chain(twins.iter()) {
                         self.net.inflight.push((id, *d, node));
                     }
                 }
@@ -443,10 +467,14 @@ impl Director {
     }
 
     fn repartition(&mut self) {
-        let n = self.c.n();
-        let k = self.rng.gen_range(1..=3u8);
+        let n = self.groups.len();
+        let k = if self.pol.twins { 2 } else { self.rng.gen_range(1..=3u8) };
         for i in 0..n {
             self.groups[i] = self.rng.gen_range(0..k);
+        }
+        // the two real replicas of one Byzantine key live in different partitions
+        for (j, t) in self.w.twins().into_iter().enumerate() {
+            self.groups[t] = (j % 2) as u8;
         }
         if let Some((v, _)) = self.laggard {
             self.groups[v] = 200;
@@ -477,6 +505,11 @@ impl Director {
             }
         }
         self.laggard = None;
+        if self.pol.byz_silent_in_suffix {
+            for t in self.w.twins() {
+                self.w.kill(t).await;
+            }
+        }
         if self.pol.poisoned_laggard {
             // whatever was sent to the isolated replica during the partition is lost, not delayed
             self.net.inflight.clear();
@@ -593,6 +626,10 @@ impl Director {
         let correct = self.w.correct();
         for i in &correct {
             self.w.start(*i).await;
+        }
+        for t in self.w.twins() {
+            self.w.start(t).await;
+            self.count("twin_replicas_started");
         }
         if let Some((node, at)) = self.pol.crash_plan {
             self.w.set_crash(node, Some(at));
